@@ -26,6 +26,7 @@ func init() {
 		NotDecided: "equality of the unpacked tree; xattr/device semantics of the OS; gnu-tar and mtree writers; symlink times.",
 		Rules: []rule{
 			{"C05.digest-flag", "the SHA512/256 index flag is derived from the digest in use only", 3, c05DigestFlag},
+			{"C05.string-terminator", "readString takes exactly the one terminating byte off a string element", 1, c05StringTerminator},
 			{"C05.codec-agree", "encoder/decoder field tables agree; element types exhaustive", 17, c05Codec},
 			{"C05.mode-tables", "mode <-> st_mode conversions are mutual inverses", 1, c05ModeTables},
 			{"C05.deterministic-order", "map iteration order never reaches the archive; keys are sorted", 3, c05Deterministic},
@@ -1068,4 +1069,62 @@ func c05NamesOpaque(c *Ctx) {
 		})
 	}
 	c.ok("traversal:names-opaque", 0, "%d traversal functions; %d path.Dir/Base/Join/Clean uses; %d character-level tests (all frozen exceptions)", len(seen), opaque, sites)
+}
+
+// c05StringTerminator: the encoder writes a string element as the bytes of the string plus one
+// NUL; readString must take off exactly that one byte.  Trimming "all trailing NULs" (or none)
+// changes values that themselves end in NUL bytes (xattr values are arbitrary bytes) and turns an
+// empty value into a malformed element.  Every successful return of readString is the buffer
+// read, cut at len-1.
+func c05StringTerminator(c *Ctx) {
+	fn := c.mustFn("FormatDecoder.readString")
+	if fn == nil {
+		return
+	}
+	n := 0
+	for _, r := range returnsOf(fn) {
+		if len(r.Results) != 2 || !isNilConst(unspill(r, r.Results[1])) {
+			continue
+		}
+		n++
+		okT, why := false, ""
+		v := unspill(r, r.Results[0])
+		if ls := leaves(v); len(ls) == 1 {
+			v = ls[0]
+		}
+		switch sl := v.(type) {
+		case *ssa.Slice:
+			src := hasOrigin(sl.X, func(o string) bool { return strings.Contains(o, "reader).ReadN#0") })
+			lowOK := sl.Low == nil
+			if k, isK := sl.Low.(*ssa.Const); sl.Low != nil && isK && constInt64(k) == 0 {
+				lowOK = true
+			}
+			highOK := false
+			if sl.High != nil {
+				lf := linearB(sl.High, 0)
+				nAtoms, lenAtom := 0, false
+				for a, coef := range lf.atoms {
+					if coef == 0 {
+						continue
+					}
+					nAtoms++
+					if coef == 1 && strings.HasPrefix(a, "len(") {
+						lenAtom = true
+					}
+				}
+				highOK = lf.ok && lf.k == -1 && nAtoms == 1 && lenAtom
+			}
+			okT = src && lowOK && highOK
+			if !okT {
+				why = fmt.Sprintf("the result is a slice of the buffer but not b[:len(b)-1] (from ReadN: %v, low ok: %v, high ok: %v)", src, lowOK, highOK)
+			}
+		default:
+			why = "the result is not the buffer cut at len-1 but " + v.String()
+		}
+		c.verdict(okT, "FormatDecoder.readString:strips-one-byte", r.Pos(), "the string is the element's bytes without exactly the final byte",
+			why+": a string element is its bytes plus one NUL; values that end in NUL bytes (xattr values) come back shorter, or elements with an empty value are rejected")
+	}
+	if n == 0 {
+		c.bad("FormatDecoder.readString:strips-one-byte", fn.Pos(), "readString has no successful return")
+	}
 }
